@@ -14,12 +14,15 @@ RULE = ("seeded histories: build a small document, clone / export_leaf any node 
         "universe shapes reached after a copy op or an edit of a copy / alias")
 COMPONENTS = sessioncheck.COMPONENTS
 TECHNIQUE = ("SESSION: seeded histories of copy operations followed by edits on either side; "
-             "frame-condition monitor (everything outside the op's footprint snapshot-identical)")
+             "frame-condition monitor (everything outside the op's footprint snapshot-identical); history "
+             "differential in both directions (replay without the edits of one side, the other side ends up the same)")
 LEVEL_TEXT = ("Seeded exploration: every copy operation is checked for detachment, equality (library == "
               "and snapshot modulo ids), disjointness by identity down to nested value lists, id "
               "freshness or identity, and export_leaf shape against the harness' own construction; the "
               "frame monitor then detects shared mutable state during arbitrary later edits without "
-              "having to know which container is shared.")
+              "having to know which container is shared. Delayed effects (state that only matters to a later "
+              "operation) are found by replaying the history without the pure edits of the copies, and "
+              "without the pure edits of the originals made after the last copy, and comparing the other side.")
 LEVEL_NOTE = ("each op declares the roots it may change (its footprint); the source of a merge is outside "
               "the footprint; histories and universe bounded; TemplateHandler.clone_section is "
               "Section.clone on a loaded document and is exercised through clone.")
